@@ -45,6 +45,7 @@ def order_src(order):
 class PipeOps(FullOps):
     def __init__(self):
         super().__init__()
+        self.strict_atoms = False  # scenario mode: atoms denote non-empty, pairwise disjoint key sets
         self.loop_orders: list = []
         self.loop_ids: list = []
         self._lid = 0
@@ -133,6 +134,8 @@ class PipeOps(FullOps):
         bb = b.atoms or frozenset().union(*[x.origin for x in (b.items or ()) if isinstance(x, TV) and x.note == "key"]) if (b.atoms or b.items) else frozenset()
         if aa and bb and aa == bb:
             return True
+        if self.strict_atoms and (aa or ea) and (bb or eb):
+            return aa == bb
         return None
 
     def set_binop(self, a, op, b, node):
@@ -149,6 +152,11 @@ class PipeOps(FullOps):
         return super().set_binop(a, op, b, node)
 
     def set_method(self, s, name, args, kwargs, node, env):
+        if self.strict_atoms and name in ("issubset", "issuperset", "isdisjoint"):
+            o = self.to_set(args[0], node)
+            if isinstance(o, SetV):
+                a, b = self.atoms_of(s), self.atoms_of(o)
+                return Const({"issubset": a <= b, "issuperset": a >= b, "isdisjoint": not (a & b)}[name])
         if name == "intersection":
             o = self.to_set(args[0], node) if args else SetV(items=())
             return self.set_binop(s, ast.BitAnd(), o, node)
@@ -162,6 +170,19 @@ class PipeOps(FullOps):
         return v
 
     def length(self, v, node):
+        if self.strict_atoms:
+            if isinstance(v, ListV) and v.items is None and v.order is not None:
+                p = Poly()
+                for a in order_src(v.order):
+                    p = p + Poly.sym(f"|{a}|")
+                return TV(kind="pyint", poly=p, note="len")
+            if isinstance(v, ListV) and v.items is not None and not v.items:
+                return Const(0)
+            if isinstance(v, SetV):
+                p = Poly()
+                for a in sorted(self.atoms_of(v)):
+                    p = p + Poly.sym(f"|{a}|")
+                return TV(kind="pyint", poly=p, note="len")
         if isinstance(v, ListV) and v.items is None:
             src = "+".join(str(a) for a in order_src(v.order)) or "?"
             uniq = v.order is not None and ("unordered" in v.order[1] or "unique" in v.order[1])
@@ -201,7 +222,15 @@ class PipeOps(FullOps):
         return TV(kind="pybool", dtype="Bool", note="membership")
 
     def compare(self, a, op, b, node, env):
-        # shapes / sizes of opaque tensors: not decidable, but never an error
+        if self.strict_atoms:
+            ta, tb = tv_of(a), tv_of(b)
+            if ta is not None and tb is not None and ta.poly is not None and tb.poly is not None:
+                d = ta.poly - tb.poly
+                if d.terms and all(all(s.startswith("|") for s, _ in m) and m for m in d.terms) and len({c > 0 for c in d.terms.values()}) == 1:
+                    pos = next(iter(d.terms.values())) > 0  # sizes of non-empty sets are positive
+                    res = {ast.Eq: False, ast.NotEq: True, ast.Lt: not pos, ast.LtE: not pos, ast.Gt: pos, ast.GtE: pos}.get(type(op))
+                    if res is not None:
+                        return Const(res)
         return super().compare(a, op, b, node, env)
 
     # ------------------------------------------------------------------ broadcasting with opaque shapes
